@@ -55,11 +55,11 @@ Proof.
   destruct m as [|m0].
   { injection H as <- <- <-. unfold Outcome, Inv. rewrite app_nil_r. auto. }
   set (m := S m0) in *.
-  set (m' := if Z.of_nat m >? m_n s + 1 then Z.to_nat (m_n s + 1) else m) in *.
+  set (m' := if Z.of_nat m - 1 >? m_n s then Z.to_nat (m_n s + 1) else m) in *.
   destruct (u_read (m_u s) m') as [[d0 e0] u'] eqn:Hu.
   apply u_read_spec in Hu as (Hdata & Hlen & He0 & _ & _).
   assert (Hm' : Z.of_nat m' <= m_n s + 1).
-  { unfold m'. destruct (Z.of_nat m >? m_n s + 1) eqn:Hc; lia. }
+  { unfold m'. destruct (Z.of_nat m - 1 >? m_n s) eqn:Hc; lia. }
   destruct (Z.of_nat (length d0) <=? m_n s) eqn:Hk.
   - apply Z.leb_le in Hk. injection H as <- <- <-.
     destruct He0 as [-> | [-> Hrest]].
@@ -171,9 +171,9 @@ Proof.
     unfold mbr_read in H1. rewrite Herr in H1.
     assert (Hm : (1 <= m)%nat) by (apply Hb; left; reflexivity).
     destruct m as [|m0]; [lia|]. set (m := S m0) in *.
-    set (m' := if Z.of_nat m >? m_n s + 1 then Z.to_nat (m_n s + 1) else m) in *.
+    set (m' := if Z.of_nat m - 1 >? m_n s then Z.to_nat (m_n s + 1) else m) in *.
     assert (Hm'1 : (1 <= m')%nat).
-    { unfold m'. destruct (Z.of_nat m >? m_n s + 1); lia. }
+    { unfold m'. destruct (Z.of_nat m - 1 >? m_n s); lia. }
     destruct (u_read (m_u s) m') as [[d0 e0] u'] eqn:Hu.
     destruct (Z.of_nat (length d0) <=? m_n s) eqn:Hc; [|discriminate].
     injection H1 as Hd1 He0 Hs1. subst d1 e0 s1.
@@ -378,17 +378,22 @@ Proof. vm_compute. reflexivity. Qed.
 Section Reader64.
 Context {A : Type}.
 
-(* for 0 <= n <= 2^63-2 nothing wraps: the coded Read IS the ideal Read *)
+(* for EVERY remaining allowance 0 <= n <= 2^63-1 the coded Read IS the ideal Read: the guard
+   int64(len(p))-1 > l.n never lets l.n+1 be formed when it would wrap (len(p) is a Go int) *)
 Lemma mbr_read64_refines (s : @mbr A) m :
-  0 <= m_n s <= max_int64 - 1 -> mbr_read64 s m = R_ok (mbr_read s m).
+  0 <= m_n s <= max_int64 -> (m_n s < max_int64 \/ Z.of_nat m < two63) ->
+  mbr_read64 s m = R_ok (mbr_read s m).
 Proof.
-  intros Hn. unfold mbr_read64, mbr_read. destruct (m_err s); [reflexivity|].
-  destruct m as [|m0]; [reflexivity|]. set (m := S m0).
-  assert (H1 : wrap64 (m_n s + 1) = m_n s + 1).
-  { apply wrap64_id. unfold max_int64, two63 in *. lia. }
-  rewrite H1.
-  replace (m_n s + 1 <? 0) with false by (symmetry; apply Z.ltb_ge; lia).
-  rewrite andb_false_r.
+  intros Hn Hm. unfold mbr_read64, mbr_read. destruct (m_err s); [reflexivity|].
+  destruct m as [|m0]; [reflexivity|]. set (m := S m0) in *. cbv zeta.
+  assert (Hcut : Z.of_nat m - 1 >? m_n s = true -> wrap64 (m_n s + 1) = m_n s + 1).
+  { intros Hc. apply wrap64_id. unfold max_int64, two63 in *. lia. }
+  assert (Hnp : (Z.of_nat m - 1 >? m_n s) && (wrap64 (m_n s + 1) <? 0) = false).
+  { destruct (Z.of_nat m - 1 >? m_n s) eqn:Hc; [|reflexivity]. rewrite (Hcut eq_refl). cbn [andb]. lia. }
+  rewrite Hnp.
+  replace (if Z.of_nat m - 1 >? m_n s then Z.to_nat (wrap64 (m_n s + 1)) else m)
+    with (if Z.of_nat m - 1 >? m_n s then Z.to_nat (m_n s + 1) else m)
+    by (destruct (Z.of_nat m - 1 >? m_n s) eqn:Hc; [rewrite (Hcut eq_refl)|]; reflexivity).
   destruct (u_read (m_u s) _) as [[d e] u'] eqn:Hu.
   pose proof (u_read_spec _ _ _ _ _ Hu) as (_ & Hlen & _).
   destruct (Z.of_nat (length d) <=? m_n s) eqn:Hk.
@@ -409,18 +414,24 @@ Proof.
 Qed.
 
 Lemma read_all64_refines bufs : forall (s : @mbr A),
-  0 <= m_n s <= max_int64 - 1 -> read_all64 s bufs = R_ok (read_all s bufs).
+  0 <= m_n s <= max_int64 -> (m_n s < max_int64 \/ forall m, In m bufs -> Z.of_nat m < two63) ->
+  read_all64 s bufs = R_ok (read_all s bufs).
 Proof.
-  induction bufs as [|m r IH]; intros s Hn; cbn [read_all64 read_all]; [reflexivity|].
-  rewrite (mbr_read64_refines s m Hn).
+  induction bufs as [|m r IH]; intros s Hn Hb; cbn [read_all64 read_all]; [reflexivity|].
+  rewrite (mbr_read64_refines s m Hn) by (destruct Hb as [Hb|Hb]; [left; exact Hb | right; apply Hb; left; reflexivity]).
   destruct (mbr_read s m) as [[d e] s1] eqn:H1.
   destruct e as [x|]; [reflexivity|].
-  rewrite (IH s1 (mbr_read_n_range _ _ _ _ _ _ Hn H1)).
-  destruct (read_all s1 r) as [[d2 e2] s2]. reflexivity.
+  pose proof (mbr_read_n_range _ _ _ _ _ (m_n s) (conj (proj1 Hn) (Z.le_refl _)) H1) as Hn1.
+  rewrite (IH s1).
+  - destruct (read_all s1 r) as [[d2 e2] s2]. reflexivity.
+  - lia.
+  - destruct Hb as [Hb|Hb]; [left; lia | right; intros m1 Hm1; apply Hb; right; exact Hm1].
 Qed.
 
+(* full strength: EVERY limit the directive can configure, 2^63-1 included; buffer lengths are Go
+   ints (only needed at limit = 2^63-1) *)
 Theorem limit_exact_int64 limit (body : list A) script eofd bufs :
-  0 <= limit <= max_int64 - 1 ->
+  0 <= limit <= max_int64 -> (limit < max_int64 \/ forall m, In m bufs -> Z.of_nat m < two63) ->
   exists d e s', read_all64 (mbr_init limit body script eofd) bufs = R_ok (d, e, s') /\
   read_all (mbr_init limit body script eofd) bufs = (d, e, s') /\
   d = firstn (length d) body /\ Z.of_nat (length d) <= limit /\
@@ -428,26 +439,10 @@ Theorem limit_exact_int64 limit (body : list A) script eofd bufs :
   (e = Some TooLarge -> limit < Z.of_nat (length body) /\ d = firstn (Z.to_nat limit) body) /\
   e <> Some ErrOther.
 Proof.
-  intros Hl. destruct (read_all (mbr_init limit body script eofd) bufs) as [[d e] s'] eqn:H.
+  intros Hl Hb. destruct (read_all (mbr_init limit body script eofd) bufs) as [[d e] s'] eqn:H.
   exists d, e, s'. split.
-  - rewrite read_all64_refines by exact Hl. rewrite H. reflexivity.
+  - rewrite read_all64_refines by (cbn [mbr_init m_n]; assumption). rewrite H. reflexivity.
   - split; [reflexivity|]. apply (limit_exact _ _ _ _ _ _ _ _ (proj1 Hl) H).
-Qed.
-
-(* limit = 2^63-1: l.n+1 wraps to -2^63, every buffer is "longer" and p[:l.n+1] panics *)
-Theorem limit_maxint64_panics (s : @mbr A) m :
-  m_err s = None -> m_n s = max_int64 -> (1 <= m)%nat -> mbr_read64 s m = R_panic.
-Proof.
-  intros He Hn Hm. unfold mbr_read64. rewrite He. destruct m as [|m0]; [lia|].
-  rewrite Hn, wrap64_max_plus_1.
-  replace (Z.of_nat (S m0) >? - two63) with true by (symmetry; apply Z.gtb_lt; unfold two63; lia).
-  reflexivity.
-Qed.
-
-Theorem read_all64_maxint64_panics (body : list A) script eofd m bufs :
-  (1 <= m)%nat -> read_all64 (mbr_init max_int64 body script eofd) (m :: bufs) = R_panic.
-Proof.
-  intros Hm. cbn [read_all64]. rewrite limit_maxint64_panics; auto.
 Qed.
 
 (* negative limits (rejected by the directive's setup, reachable only through the Go API) *)
@@ -457,11 +452,11 @@ Theorem negative_limit_misbehaves (s : @mbr A) m :
   (m_n s = -1 -> mbr_read64 s m = R_neg (-1)).
 Proof.
   intros He Hm. unfold mbr_read64. rewrite He. destruct m as [|m0]; [lia|]. split.
-  - intros Hn. rewrite wrap64_id by (unfold two63 in *; lia).
-    replace (Z.of_nat (S m0) >? m_n s + 1) with true by (symmetry; apply Z.gtb_lt; lia).
+  - intros Hn. cbv zeta. rewrite wrap64_id by (unfold two63 in *; lia).
+    replace (Z.of_nat (S m0) - 1 >? m_n s) with true by (symmetry; apply Z.gtb_lt; lia).
     replace (m_n s + 1 <? 0) with true by (symmetry; apply Z.ltb_lt; lia). reflexivity.
-  - intros Hn. rewrite Hn. change (wrap64 (-1 + 1)) with 0.
-    replace (Z.of_nat (S m0) >? 0) with true by (symmetry; apply Z.gtb_lt; lia).
+  - intros Hn. cbv zeta. rewrite Hn. change (wrap64 (-1 + 1)) with 0.
+    replace (Z.of_nat (S m0) - 1 >? -1) with true by (symmetry; apply Z.gtb_lt; lia).
     cbn [andb Z.ltb Z.compare Z.to_nat]. unfold u_read. cbn. reflexivity.
 Qed.
 
@@ -483,7 +478,8 @@ Definition answers_ok (answers : list answer) : Prop :=
   forall a, In a answers -> 0 <= fst a <= max_int64 /\ snd a <> Some TooLarge.
 
 Lemma cnt_run_spec bufs : forall s answers,
-  c_err s = None -> 0 <= c_n s <= max_int64 - 1 -> answers_ok answers ->
+  c_err s = None -> 0 <= c_n s <= max_int64 ->
+  (c_n s < max_int64 \/ forall m, In m bufs -> m < two63) -> answers_ok answers ->
   exists outs s' consumed rest,
     cnt_run s bufs answers = R_ok (outs, s', rest) /\ answers = consumed ++ rest /\
     (forall o, In o outs -> 0 <= fst o) /\
@@ -492,24 +488,27 @@ Lemma cnt_run_spec bufs : forall s answers,
     (c_n s < zsum (map fst consumed) <-> c_err s' = Some TooLarge) /\
     (c_err s' = None -> c_n s' = c_n s - zsum (map fst consumed)).
 Proof.
-  induction bufs as [|m r IH]; intros s answers He Hn Hok.
+  induction bufs as [|m r IH]; intros s answers He Hn Hb Hok.
   - exists [], s, [], answers. cbn [cnt_run app map zsum fold_right].
     split; [reflexivity|]. split; [reflexivity|]. split; [intros o []|].
     split; [lia|]. split; [lia|]. split; [|intros _; lia].
     split; [intros H; lia | rewrite He; discriminate].
   - cbn [cnt_run]. unfold cnt_read. rewrite He.
+    assert (Hb' : forall c', 0 <= c' <= c_n s -> c' < max_int64 \/ forall m1, In m1 r -> m1 < two63).
+    { intros c' Hc'. destruct Hb as [Hb|Hb]; [left; lia | right; intros m1 Hm1; apply Hb; right; exact Hm1]. }
     destruct (m =? 0) eqn:Hm.
-    { destruct (IH s answers He Hn Hok) as (outs & s' & consumed & rest & Hr & Ha & Hpos & Hsum & Hrng & Htl & Hnone).
+    { destruct (IH s answers He Hn (Hb' (c_n s) ltac:(lia)) Hok) as (outs & s' & consumed & rest & Hr & Ha & Hpos & Hsum & Hrng & Htl & Hnone).
       exists ((0, None) :: outs), s', consumed, rest. rewrite Hr.
       split; [reflexivity|]. split; [exact Ha|]. split.
       { intros o [<-|Ho]; [simpl; lia|auto]. }
       split. { unfold zsum in *. cbn [map fst fold_right]. lia. }
       split; [exact Hrng|]. split; [exact Htl|exact Hnone]. }
-    assert (H1 : wrap64 (c_n s + 1) = c_n s + 1).
-    { apply wrap64_id. unfold max_int64, two63 in *. lia. }
-    rewrite H1.
-    replace (c_n s + 1 <? 0) with false by (symmetry; apply Z.ltb_ge; lia).
-    rewrite andb_false_r.
+    assert (Hnp : (m - 1 >? c_n s) && (wrap64 (c_n s + 1) <? 0) = false).
+    { destruct (m - 1 >? c_n s) eqn:Hcut; [|reflexivity]. cbn [andb].
+      assert (Hlt : c_n s < max_int64).
+      { destruct Hb as [Hb|Hb]; [exact Hb|]. specialize (Hb m (or_introl eq_refl)). unfold max_int64, two63 in *. lia. }
+      rewrite wrap64_id by (unfold max_int64, two63 in *; lia). lia. }
+    rewrite Hnp.
     (* the underlying reader's answer *)
     assert (Hans : exists c e rest0 cons0,
               match answers with [] => (0, Some EOF, []) | (c, e) :: r0 => (c, e, r0) end = (c, e, rest0) /\
@@ -541,7 +540,7 @@ Proof.
         split; [intros Hlt; lia | intros Hx; congruence].
       * set (s1 := {| c_n := c_n s - c; c_err := None |}).
         destruct (IH s1 rest0 eq_refl) as (outs & s' & consumed & rest & Hr & Ha & Hpos & Hsum & Hrng & Htl & Hnone).
-        { unfold s1; cbn [c_n]; lia. } { exact Hok0. }
+        { unfold s1; cbn [c_n]; lia. } { unfold s1; cbn [c_n]. apply Hb'. lia. } { exact Hok0. }
         exists ((c, None) :: outs), s', (cons0 ++ consumed), rest. rewrite Hr. unfold s1 in *. cbn [c_n] in *.
         assert (Hsplit : zsum (map fst (cons0 ++ consumed)) = c + zsum (map fst consumed)).
         { rewrite map_app. unfold zsum. rewrite fold_right_app.
@@ -569,7 +568,7 @@ Proof.
 Qed.
 
 Theorem count_exact_int64 limit bufs answers :
-  0 <= limit <= max_int64 - 1 -> answers_ok answers ->
+  0 <= limit <= max_int64 -> (limit < max_int64 \/ forall m, In m bufs -> m < two63) -> answers_ok answers ->
   exists outs s' consumed rest,
     cnt_run (cnt_init limit) bufs answers = R_ok (outs, s', rest) /\ answers = consumed ++ rest /\
     (forall o, In o outs -> 0 <= fst o) /\
@@ -577,30 +576,45 @@ Theorem count_exact_int64 limit bufs answers :
     0 <= c_n s' <= limit /\
     (limit < zsum (map fst consumed) <-> c_err s' = Some TooLarge).
 Proof.
-  intros Hl Hok.
-  destruct (cnt_run_spec bufs (cnt_init limit) answers eq_refl Hl Hok)
+  intros Hl Hb Hok.
+  destruct (cnt_run_spec bufs (cnt_init limit) answers eq_refl Hl Hb Hok)
     as (outs & s' & consumed & rest & H1 & H2 & H3 & H4 & H5 & H6 & _).
   exists outs, s', consumed, rest. cbn [cnt_init c_n] in *. auto 10.
 Qed.
 
-Theorem count_maxint64_panics m bufs answers :
-  m <> 0 -> - two63 < m -> cnt_run (cnt_init max_int64) (m :: bufs) answers = R_panic.
-Proof.
-  intros Hm Hlo. cbn [cnt_run]. unfold cnt_read. cbn [cnt_init c_err c_n].
-  replace (m =? 0) with false by (symmetry; apply Z.eqb_neq; exact Hm).
-  rewrite wrap64_max_plus_1.
-  replace (m >? - two63) with true by (symmetry; apply Z.gtb_lt; lia).
-  reflexivity.
-Qed.
-
 (* ======================================================================================== *)
 (* ---- parseSize: what an accepted size string yields ---- *)
+Lemma size_times_range n mult : - two63 <= size_times n mult < two63.
+Proof. unfold size_times. destruct (_ || _); [unfold two63; lia | apply wrap64_range]. Qed.
+
+(* the guard of parseSize: the product is formed only when it fits, and then it is exact *)
+Lemma size_times_exact n mult v :
+  1 <= mult -> size_times n mult = v -> 1 <= v -> 0 <= n /\ v = n * mult /\ n * mult <= max_int64.
+Proof.
+  unfold size_times. intros Hm H Hv.
+  destruct ((n <? 0) || (n >? max_int64 / mult)) eqn:E; [lia|].
+  apply orb_false_iff in E as [E1 E2]. apply Z.ltb_ge in E1. rewrite Z.gtb_ltb in E2. apply Z.ltb_ge in E2.
+  assert (Hle : n * mult <= max_int64).
+  { pose proof (Z.mul_div_le max_int64 mult ltac:(lia)). nia. }
+  rewrite wrap64_id in H by (unfold max_int64, two63 in *; nia). auto.
+Qed.
+
+Lemma size_times_fits n mult :
+  1 <= mult -> 0 <= n -> n * mult <= max_int64 -> size_times n mult = n * mult.
+Proof.
+  intros Hm Hn Hle. unfold size_times.
+  replace (n <? 0) with false by (symmetry; apply Z.ltb_ge; lia).
+  replace (n >? max_int64 / mult) with false.
+  2:{ symmetry. rewrite Z.gtb_ltb. apply Z.ltb_ge. apply Z.div_le_lower_bound; lia. }
+  cbn [orb]. apply wrap64_id. unfold max_int64, two63 in *. nia.
+Qed.
+
 Lemma parse_size_units_range s us : - two63 <= parse_size_units s us < two63.
 Proof.
   induction us as [|[sym mult] r IH]; cbn [parse_size_units].
   - unfold two63; lia.
   - destruct (has_suffix s sym); [|exact IH].
-    destruct (parse_int64 _); [apply wrap64_range | unfold two63; lia].
+    destruct (parse_int64 _); [apply size_times_range | unfold two63; lia].
 Qed.
 
 Theorem accept_size_range s v : accept_size s = Some v -> 1 <= v <= max_int64.
@@ -678,7 +692,7 @@ Qed.
 Lemma parse_size_units_found s : forall us v,
   parse_size_units s us = v -> 1 <= v ->
   exists sym mult n, In (sym, mult) us /\ has_suffix s sym = true /\
-    parse_int64 (firstn (length s - length sym) s) = Some n /\ v = wrap64 (n * mult).
+    parse_int64 (firstn (length s - length sym) s) = Some n /\ v = size_times n mult.
 Proof.
   induction us as [|[sym mult] r IH]; intros v H Hv; cbn [parse_size_units] in H.
   - lia.
@@ -705,11 +719,10 @@ Proof.
   split; apply N.eqb_neq; lia.
 Qed.
 
-Theorem accept_size_denotes s v :
+Theorem accept_size_exact s v :
   accept_size s = Some v ->
-  exists n u, denote s = Some (n, u) /\ - two63 <= n < two63 /\ 1 <= u <= 1073741824 /\
-    v = wrap64 (n * u) /\ 1 <= v <= max_int64 /\
-    (- two63 <= n * u < two63 -> v = n * u /\ 1 <= n * u).
+  exists n u, denote s = Some (n, u) /\ v = n * u /\ 1 <= v <= max_int64 /\
+    0 <= n < two63 /\ 1 <= u <= 1073741824.
 Proof.
   intros Hacc. pose proof (accept_size_range _ _ Hacc) as Hrange.
   unfold accept_size in Hacc. destruct (parse_size s <? 1) eqn:Hlt; [discriminate|].
@@ -731,17 +744,8 @@ Proof.
       rewrite (span_digits_app ds sym Hall Hhead). destruct ds; [congruence|]. rewrite Hu. subst n. reflexivity.
     - cbn [app]. change (45 =? 43)%N with false. rewrite N.eqb_refl.
       rewrite (span_digits_app ds sym Hall Hhead). destruct ds; [congruence|]. rewrite Hu. subst n. reflexivity. }
-  split; [exact Hden|]. split; [exact Hnr|]. split; [exact Hmult|]. split; [exact Hw|].
-  split; [exact Hrange|]. intros Hin64. rewrite wrap64_id in Hw by exact Hin64. split; [exact Hw | lia].
-Qed.
-
-(* the product is an int64 product: an accepted string whose number*unit overflows yields
-   a WRAPPED value, not an error *)
-Theorem parse_size_exact_refuted :
-  exists s n u v, denote s = Some (n, u) /\ accept_size s = Some v /\ v <> n * u.
-Proof.
-  exists (bs "18014398509481985KB"%string), 18014398509481985, 1024, 1024.
-  split; [vm_compute; reflexivity|]. split; [vm_compute; reflexivity|]. lia.
+  destruct (size_times_exact n mult v (proj1 Hmult) (eq_sym Hw) (proj1 Hrange)) as (Hn0 & Hvx & _).
+  split; [exact Hden|]. split; [exact Hvx|]. split; [exact Hrange|]. split; [lia | exact Hmult].
 Qed.
 
 (* ======================================================================================== *)
@@ -904,27 +908,36 @@ Proof.
   destruct (limit_exact _ _ _ _ _ _ _ _ Hl Hr) as (H1 & H2 & _ & H4 & _). auto.
 Qed.
 
-Theorem too_large_is_413_partial bs :
-  consumer_status ProxyStream false (Some TooLarge) bs = 413.
-Proof. reflexivity. Qed.
+Theorem too_large_is_413 k clf bs : consumer_status k clf (Some TooLarge) bs = 413.
+Proof. destruct k; reflexivity. Qed.
 
-Theorem too_large_is_413_refuted :
-  exists k clf bs, bs = 200 /\ consumer_status k clf (Some TooLarge) bs <> 413.
-Proof. exists ProxyStream, true, 200. split; [reflexivity|]. cbn. lia. Qed.
-
-Theorem too_large_status_table k clf bs :
-  consumer_status k clf (Some TooLarge) bs = 413 <-> (k = ProxyStream /\ clf = false) \/ (k = Fastcgi /\ bs = 413).
+Theorem too_large_status_table k clf e bs :
+  consumer_status k clf e bs = 413 <-> e = Some TooLarge \/ bs = 413.
 Proof.
-  destruct k, clf; cbn; split; intros H; try lia; try tauto;
-    try (destruct H as [[? ?]|[? ?]]; try discriminate; try lia).
+  destruct e as [[| |]|]; cbn.
+  - split; [intros H; right; exact H | intros [H|H]; [discriminate | exact H]].
+  - destruct k; split; auto.
+  - split; [intros H; right; exact H | intros [H|H]; [discriminate | exact H]].
+  - split; [intros H; right; exact H | intros [H|H]; [discriminate | exact H]].
 Qed.
 
-Theorem limit_exact_all_int64_refuted :
-  exists (limit : Z) (body : list N) script eofd bufs,
-  0 <= limit <= max_int64 /\ read_all64 (mbr_init limit body script eofd) bufs = R_panic.
+(* end to end: a consumer that reads the limited body to the end answers 413 exactly for the bodies
+   over the limit, having received exactly the first [limit] bytes; otherwise it has the whole body
+   and relays the backend's own status *)
+Theorem upload_status limit (body : list N) script eofd bufs k clf bs d e :
+  0 <= limit ->
+  (forall m, In m bufs -> (1 <= m)%nat) -> (forall j, In j script -> (1 <= j)%nat) ->
+  (length body + 2 <= length bufs)%nat ->
+  consumer_reads limit body script eofd bufs = (d, e) ->
+  (limit < Z.of_nat (length body) -> d = firstn (Z.to_nat limit) body /\ consumer_status k clf e bs = 413) /\
+  (Z.of_nat (length body) <= limit -> d = body /\ consumer_status k clf e bs = bs).
 Proof.
-  exists max_int64, [1%N], [], true, [1%nat]. split; [unfold max_int64, two63; lia|].
-  exact (read_all64_maxint64_panics [1%N] [] true 1%nat [] (le_n 1)).
+  unfold consumer_reads. intros Hl Hb Hs Hlen H.
+  destruct (read_all (mbr_init limit body script eofd) bufs) as [[d0 e0] s0] eqn:Hr.
+  injection H as <- <-.
+  destruct (limit_complete _ _ _ _ _ _ _ _ Hl Hb Hs Hlen Hr) as [Hin Hover]. split.
+  - intros Hlt. destruct (Hover Hlt) as [-> ->]. split; [reflexivity | apply too_large_is_413].
+  - intros Hle. destruct (Hin Hle) as [-> ->]. split; reflexivity.
 Qed.
 
 (* ======================================================================================== *)
@@ -1005,7 +1018,7 @@ Lemma parse_size_units_complete (sign ds : bytes) neg sym mult :
   (sign = [] /\ neg = false) \/ (sign = [43%N] /\ neg = false) \/ (sign = [45%N] /\ neg = true) ->
   - two63 <= signed neg (dec ds) < two63 ->
   In (sym, mult) units ->
-  parse_size_units ((sign ++ ds) ++ sym) units = wrap64 (signed neg (dec ds) * mult).
+  parse_size_units ((sign ++ ds) ++ sym) units = size_times (signed neg (dec ds)) mult.
 Proof.
   intros Hne Hall Hs Hr Hin.
   pose proof (parse_int64_complete sign ds neg Hne Hall Hs Hr) as Hp.
@@ -1093,7 +1106,7 @@ Proof.
   { rewrite <- Hn. unfold max_int64, two63 in *. nia. }
   unfold accept_size, parse_size. fold U. rewrite EU.
   rewrite (parse_size_units_complete sign ds neg sym u Hne Hall Hsg Hn64 Hin).
-  rewrite <- Hn. rewrite wrap64_id by (unfold max_int64, two63 in *; lia).
+  rewrite <- Hn. rewrite size_times_fits by nia.
   replace (n * u <? 1) with false by (symmetry; apply Z.ltb_ge; lia). reflexivity.
 Qed.
 
